@@ -125,9 +125,9 @@ Definition case_cmp (vclass : string) (a : sarg) (op : sop) (right : string) (re
      ("cmp|" ++ pr_arg a ++ "|" ++ Z_to_string (op_num op) ++ "|" ++ hx right ++ "|" ++ b01 res0)
      (pr_out b01 m) spec.
 
-Definition case_deq (vclass : string) (l r : sarg) : rawcase :=
-  let m1 := s_deq cur gfuel l r in
-  let m2 := s_deq cur gfuel r l in
+Definition case_deq (rv : rev) (vclass : string) (l r : sarg) : rawcase :=
+  let m1 := s_deq rv gfuel l r in
+  let m2 := s_deq rv gfuel r l in
   let spec :=
     match denotes l, denotes r with
     | Some x, Some y =>
@@ -218,8 +218,8 @@ Definition zero_texts (v : sval) : string :=
   | VOther t => "pother:" ++ Z_to_string t
   end.
 
-Definition case_reset (a : sarg) : rawcase :=
-  let m := s_reset cur a in
+Definition case_reset (rv : rev) (a : sarg) : rawcase :=
+  let m := s_reset rv a in
   let spec :=
     match a with
     | AVal _ => pr_arg a                                (* by value nothing can change *)
@@ -355,19 +355,24 @@ Definition copyto_cases (full : bool) (a : sarg) : list rawcase :=
            (dsts_for full a).
 
 (* ---------- the enumerated part ---------- *)
-Definition enum_cases (full : bool) : list rawcase :=
+Definition one_per_form (k : skind) : list sarg :=
+  match vals false k with v :: _ => [AVal v; APtr v; ANil k] | [] => [ANil k] end.
+
+Definition enum_cases (rv : rev) (full : bool) : list rawcase :=
   let args := all_args full in
   let small := all_args false in
+  (* the pre-fix model is only run by hand (tier 2): fewer pairs, every diverging call costs a child process *)
+  let dargs := if fx_text rv then args else (flat_map one_per_form kinds15 ++ others)%list in
   map (case_get "get") args ++ map (case_get "getto") args ++
   map (fun a => case_noop "set" a (AVal (VInt KInt 7))) small ++
   map (fun a => case_noop "setbuf" a (AVal (VStr id_dst "zz"))) small ++
   map (fun a => case_noop "loop" a (AVal (VOther 0))) small ++
   flat_map (cmp_cases full "boundary") args ++
-  flat_map (fun l => map (case_deq "boundary" l) args) args ++
+  flat_map (fun l => map (case_deq rv "boundary" l) dargs) dargs ++
   map case_copy args ++
   flat_map (copyto_cases full) (if full then args else small) ++
   map (case_lc false) args ++ map (case_lc true) args ++
-  map case_reset args ++
+  map (case_reset rv) args ++
   [case_typename; case_unmarshal 0 "1"; case_unmarshal 0 "{"; case_unmarshal 1 "1"; case_unmarshal 7 ""].
 
 (* ---------- random values ---------- *)
@@ -481,7 +486,7 @@ Definition rnd_operand (s : rng) (a : sarg) : string * rng :=
                       (match arg_family a with FamFloat => if pf_domain t then t else "1.25" | _ => t end, s3)
   else pick_list s1 "" (operands_for true a).
 
-Fixpoint rnd_cases (count : nat) (s : rng) : list rawcase :=
+Fixpoint rnd_cases (rv : rev) (count : nat) (s : rng) : list rawcase :=
   match count with
   | O => []
   | S c =>
@@ -490,19 +495,19 @@ Fixpoint rnd_cases (count : nat) (s : rng) : list rawcase :=
     match m with
     | 0 | 1 | 2 | 3 | 4 =>
       let '(b, s3) := related_arg s2 a in
-      case_deq "random" a b :: rnd_cases c s3
+      case_deq rv "random" a b :: rnd_cases rv c s3
     | 5 | 6 | 7 =>
       let '(t, s3) := rnd_operand s2 a in
       let '(o, s4) := pick_list s3 OpEq all_ops in
       let '(r0, s5) := rng_nat s4 2 in
-      case_cmp "random" a o t (Nat.eqb r0 1) :: rnd_cases c s5
-    | 8 => case_copy a :: case_get "get" a :: rnd_cases c s2
+      case_cmp "random" a o t (Nat.eqb r0 1) :: rnd_cases rv c s5
+    | 8 => case_copy a :: case_get "get" a :: rnd_cases rv c s2
     | 9 =>
       let '(d, s3) := pick_list s2 (AVal (VOther 0)) (dsts_for false a) in
       let '(n, s4) := rng_nat s3 4 in
-      case_copyto a d (Z.of_nat n * 2) (if Nat.even n then "" else "q") :: rnd_cases c s4
-    | 10 => case_lc false a :: case_lc true a :: rnd_cases c s2
-    | _ => case_reset a :: rnd_cases c s2
+      case_copyto a d (Z.of_nat n * 2) (if Nat.even n then "" else "q") :: rnd_cases rv c s4
+    | 10 => case_lc false a :: case_lc true a :: rnd_cases rv c s2
+    | _ => case_reset rv a :: rnd_cases rv c s2
     end
   end.
 
@@ -513,7 +518,12 @@ Fixpoint number (i : N) (l : list rawcase) : list string :=
     ("c" ++ N_to_string i ++ tab ++ tags ++ tab ++ input ++ tab ++ model ++ tab ++ spec) :: number (N.succ i) r
   end.
 
-(* tier 0 = quick, 1 = thorough *)
+(* tier 0 = quick, 1 = thorough.  Tier 2 is not used by bin/check: it prints the
+   model of the code BEFORE the fix commits ([pinned]) on a reduced set, to be
+   run by hand against a checkout of that code (build/modeldrv_c16 2 1 | hrun c16);
+   that is how the witnesses of the C16_refuted_ theorems were confirmed. *)
 Definition cases (tier : Z) (seed : Z) : list string :=
-  let full := negb (Z.eqb tier 0) in
-  number 0%N (enum_cases full ++ rnd_cases (if full then Nat.mul 60 1000 else Nat.mul 6 1000) (rng_of_seed seed)).
+  let full := Z.eqb tier 1 in
+  let rv := if Z.eqb tier 2 then pinned else cur in
+  number 0%N (enum_cases rv full ++
+              rnd_cases rv (if full then Nat.mul 60 1000 else if Z.eqb tier 2 then Nat.mul 2 1000 else Nat.mul 6 1000) (rng_of_seed seed)).
